@@ -25,6 +25,11 @@ GETATTR_HOOKS = []  # f(interp, obj, name) -> NOT_HANDLED | result
 # ----------------------------------------------------------------------------------------------------------------------
 
 
+class SymStopIteration(Exception):
+    """StopIteration raised by interpreted code: a real StopIteration cannot travel through the generator-based
+    statement interpreter (PEP 479), so it is carried by this surrogate and matched by `except StopIteration`"""
+
+
 class ReturnSig(BaseException):
     def __init__(self, v):
         self.v = v
@@ -610,6 +615,9 @@ class Interp:
                     else:
                         et = self.ev(h.type, env)
                         ok = isinstance(e, et)
+                        if not ok and isinstance(e, SymStopIteration):
+                            ets = et if isinstance(et, tuple) else (et,)
+                            ok = any(t is StopIteration for t in ets)
                     if ok:
                         if h.name:
                             env.vars[h.name] = e
@@ -629,6 +637,8 @@ class Interp:
         e = self.ev(st.exc, env)
         if isinstance(e, type):
             e = e()
+        if isinstance(e, StopIteration):
+            raise SymStopIteration(*e.args)
         raise e
 
     def x_Assert(self, st, env):
@@ -987,3 +997,37 @@ class Interp:
         return out
 
 
+
+
+def _iter_repo_objects(x):
+    """for-loops / list() over instances of repo classes go through their interpreted __iter__/__next__"""
+    itp = Interp.cur
+    if itp is None or is_native() or isinstance(x, (SymSeq, list, tuple, dict, str, bytes)):
+        return NOT_HANDLED
+    cls = type(x)
+    if not itp.is_repo_class(cls):
+        return NOT_HANDLED
+    it_f = itp.find_in_mro(cls, "__iter__")
+    if not (isinstance(it_f, types.FunctionType) and itp.is_repo_func(it_f)):
+        return NOT_HANDLED
+    it = itp.call_ifunc(itp.lift_function(it_f), [x], {})
+    nx = itp.find_in_mro(type(it), "__next__") if itp.is_repo_class(type(it)) else None
+    if not (isinstance(nx, types.FunctionType) and itp.is_repo_func(nx)):
+        return iter(it)
+
+    def gen():
+        n = 0
+        while True:
+            n += 1
+            if n > itp.MAX_FOR:
+                raise UnwindLimit("iterator protocol loop")
+            try:
+                v = itp.call_ifunc(itp.lift_function(nx), [it], {})
+            except SymStopIteration:
+                return
+            yield v
+
+    return gen()
+
+
+V.ITER_HOOKS.append(_iter_repo_objects)
